@@ -502,6 +502,10 @@ class Generator(AbstractODSGenerator):
         output_sheet: Any = ezodf.Table(output_sheet_name)
         summary_sheet: Any = output_file.sheets["Summary"]
 
+        # Transactions are hashed by internal id (spreadsheet row), which is unique only within one asset: start each asset with an empty
+        # transaction-to-row map, otherwise a transaction hidden by the time filter would link to the row of another asset's transaction
+        self.__in_out_sheet_transaction_2_row = {}
+
         output_file.sheets += transaction_sheet
         output_file.sheets += output_sheet
 
